@@ -123,7 +123,7 @@ package tools
 // told to expect.  (This is what the copy lemma of CopyWithCallback rests on
 // when a progress callback is installed.)
 //@ func (*CallbackReader).Read
-//@   props C01 C02
+//@   props C01 C02 C08
 //@   requires @inv w != nil && w.Reader != nil
 //@   modifies bytes p, ghost rrest[w.Reader], field w.ReadSize
 //@   ensures result0 >= 0 && result0 <= len(p)
